@@ -16,7 +16,7 @@ def check_all(ctx, exps, who):
     for e in exps:
         ok, why = ctx.ref.is_valid(D.exp_to_seq(e))
         if not ok:
-            ctx.fail("invalid-sequence:" + who.split(":")[0], "%s returned %r which violates the design: %s" % (who, D.exp_to_seq(e), why))
+            ctx.fail("invalid-sequence:" + ("formula-model" if who.startswith("a model") else who.split(":")[0]), "%s returned %r which violates the design: %s" % (who, D.exp_to_seq(e), why))
             return False
     return True
 
